@@ -12,6 +12,7 @@ import Splipy.Lemmas.C18Star
 import Splipy.Lemmas.C18Partition
 import Splipy.Lemmas.C18Cps
 import Splipy.Lemmas.C18Plans
+import Splipy.Lemmas.C18PlansInv
 import Splipy.Lemmas.C18Witness
 
 /-!
@@ -126,8 +127,8 @@ theorem C18_numbering_counterexample :
     (`C18_numbering_counterexample`: it fails for edge-only / corner-only contact; the harness also
     shows it failing for an L-shape whose corner patch is added last, and for self-connected
     patches); the statement is about `numberPlans` on plans with the hypotheses above rather than
-    about the catalogue (the tie is `C18_plans_of_catalogue_partial`: it needs the ownership
-    invariant `PlansInv`, which C17's catalogue theorems do not provide); the `cps()` clause is
+    about the catalogue (the tie is `C18_plans_of_catalogue`: the ownership invariant `PlansInv`
+    holds after every add-history of new top-level patches, pardim 2 and 3); the `cps()` clause is
     `C18_cps_partial`. -/
 theorem C18_numbering_partial {γ : Type} [Inhabited γ] (plans : List PatchPlan) (P : List (NdArr γ))
     (hcompat : Compat (generateAll plans 0).1 P)
@@ -252,8 +253,8 @@ example : wellOrderedB (plansOfObjs C18W.edgeContact) = true ∧ noJunkB (plansO
     the comparison of the real nodes' ownership and orientations against `plansOfObjs`), then
     `generate_cp_numbers()` returns exactly what `numberPlans (plansOfObjs objs)` returns, the
     function of `C18_numbering_star` / `C18_numbering_partition` / `C18_numbering_counterexample`.
-    (A proof that the check always succeeds is `C18_plans_of_catalogue_partial` + the open
-    invariant `PlansInv`.) -/
+    (For add-histories of parametric dimension 2 and 3 in which every patch is a new top node the
+    check is PROVED to succeed: `C18_plans_of_catalogue`, `C18_generate_eq_plans_of_add`.) -/
 theorem C18_generate_eq_plans (sm : SplineModel) (objs : List Obj)
     (h : plansAgreeB sm.plans (plansOfObjs objs) = true) :
     sm.plans = plansOfObjs objs ∧
@@ -270,42 +271,67 @@ theorem C18_generate_eq_plans (sm : SplineModel) (objs : List Obj)
     subst hr
     exact hv
 
-/-- **The catalogue's numbering is the history's numbering, under the ownership invariant.**
-    `PlansInv sm objs` states precisely what the numbering needs from the catalogue state `sm`
-    after the patches `objs` (top-dimensional, each a new top node) were added: one top node per
-    patch in insertion order storing the patch; one codimension-1 node per section; the node of the
-    face `(k, i)` stores the object of the FIRST occurrence `firstOcc objs k i` of that face in the
-    history (`sameEntity` = `Orientation.compute` does not raise), is OWNED by the top node of that
-    patch, and views that node's number array through the last section of it showing the face.
-    Then the plans read off the catalogue are `plansOfObjs objs`, and `generate_cp_numbers()` on the
-    catalogue returns exactly what `numberPlans (plansOfObjs objs)` returns — the function of
-    `C18_numbering_partial` / `C18_numbering_counterexample`.
+/-- **State of a `SplineModel` after the patches `objs` were added** (in this order, over any
+    number of `add` calls), each of them a NEW top node: `Hist` (`Lemmas/C18History.lean`) =
+    C17's catalogue invariant `Inv` + well-formed key tables + `top_nodes()` is `objs` in insertion
+    order, every top node owner-less + the PROVENANCE of every node of dimension `pardim - 1`: it
+    stores the section object of the lexicographically first face occurrence `(patch, section)` of
+    its `≈`-class in the history, and is owned by the top node of that patch. -/
+def C18_History (nc : ℕ) (sm : SplineModel) (objs : List Obj) : Prop :=
+  Hist nc sm.pardim (fun _ => True) objs sm.cat
 
-    PARTIAL: `PlansInv` itself is not proved for the catalogue of a history (its only proved
-    instance is the empty history).  The precise obstacle: (i) C17's state relations `Ext` (old
-    nodes keep `obj` and `lower`) and `Inv` do not mention `TNode.owner`; `Model.newNode` rewrites
-    owners of EXISTING nodes through `transferOwnership` (recursive over lower links), and
-    `Model.lookup` threads the state through two nested `foldlM`s (dimensions × sections), so the
-    frame fact "a node that has an owner keeps it; the owner-less facets of a new node get that
-    node" has to be carried through `lookupPoint` / `resolve` / `addNode` / `newNode` /
-    `transferOwnership` by the same induction as C17's `lookup_sound` — C17's theorems
-    (`C17_catalogue_step`, `C17_catalogue_invariant`) cannot be used as black boxes for it;
-    (ii) `PlansInv` needs the ORDER of `top_nodes()` (= creation order, which makes owners earlier
-    than readers), while C17's `nodesOf_spec` gives only the set — an invariant on the order of
-    `Level.keys` is missing; (iii) `face_view` needs the `assign_cp_numbers` recursion
-    (`assignViews`: the last hand-down wins).  Until then the link is the decidable check of
-    `C18_generate_eq_plans`, evaluated on every generated model.  Its node-identity part
-    follows from C17 (`C17_catalogue_counts`: a lower link IS the node `F` iff the section is `≈` to
-    `F`'s object; `nodes(P)` duplicate free); its OWNERSHIP part (owner = creator, object of the
-    first occurrence, creation order of the top nodes) is not tracked by C17's invariant `Inv` and
-    would need the same induction over `lookup`/`_add` with `owner` and creation order added.  It is
-    checked on every generated history by the `plans` observable of the correspondence run (real
-    ownership and orientations = `plansOfObjs`; catalogue plans of the model = `plansOfObjs`). -/
-theorem C18_plans_of_catalogue_partial (sm : SplineModel) (objs : List Obj) (h : PlansInv sm objs) :
-    sm.plans = plansOfObjs objs ∧
+/-- the fresh model has the empty history -/
+theorem C18_history_new (nc P D : ℕ) (frh : Bool) (sm0 : SplineModel) (hP : 1 ≤ P)
+    (h : SplineModel.new P D frh = .ok sm0) : C18_History nc sm0 [] := by
+  unfold SplineModel.new at h
+  split at h
+  · simp at h
+  · simp only [Except.ok.injEq] at h
+    subst h
+    exact Hist.empty nc P _ (by omega)
+
+/-- **`SplineModel.add` preserves the history invariant** — (a) ownership frame through
+    `lookup` / `resolve` / `_add` / `newNode` / `transferOwnership` (`Lemmas/C17Owner.lean`),
+    (b) creation order of `top_nodes()` through the ordered key lists of the levels
+    (`Lemmas/C18TopOrder.lean`).  Hypotheses: the new patches are well-formed (`GU`) of the model's
+    parametric dimension, twins are rejected at that dimension (`raise_on_twins` contains `pardim`;
+    the default `True` does), and no patch is `≈` (equal up to re-parametrisation) to another patch
+    of the history — otherwise `lookup` silently returns the EXISTING node and `top_nodes()` has
+    fewer entries than the history. -/
+theorem C18_history_add (nc : ℕ) (ktol : ℚ) (sm sm' : SplineModel) (objs news : List Obj) (tw : List ℕ)
+    (H : C18_History nc sm objs) (hP : 1 ≤ sm.pardim)
+    (hgu : ∀ p ∈ news, GU nc p ∧ p.pardim = sm.pardim)
+    (htw : tw.contains sm.pardim = true)
+    (hdist : (objs ++ news).Pairwise (fun a b => ¬ Equiv a b))
+    (hadd : sm.add ktol news tw = .ok sm') : C18_History nc sm' (objs ++ news) := by
+  obtain ⟨hp, hfold⟩ := SplineModel.add_ok hadd
+  unfold C18_History
+  rw [hp]
+  exact Hist.fold (fun _ _ _ _ _ => trivial) tw htw hP news objs sm.cat sm'.cat H
+    (fun p hp' => ⟨(hgu p hp').1, (hgu p hp').2, trivial⟩) hdist hfold
+
+/-- **The catalogue's numbering IS the history's numbering** (parametric dimension 2 and 3).
+    After any add-history (`C18_History`, established by `C18_history_new` / `C18_history_add`) the
+    ownership invariant `PlansInv sm objs` holds: one top node per patch in insertion order storing
+    the patch; one codimension-1 node per section; the node of the face `(k, i)` stores the object of
+    the FIRST occurrence `firstOcc objs k i` of that face in the history, is OWNED by the top node of
+    that patch, and — (c), the `assign_cp_numbers` recursion `assignViews` — views that node's number
+    array through the last section of it showing the face.  Hence the plans read off the catalogue
+    are `plansOfObjs objs`, and `generate_cp_numbers()` on the catalogue returns exactly what
+    `numberPlans (plansOfObjs objs)` returns — the function of `C18_numbering_star` /
+    `C18_numbering_partition` / `C18_numbering_counterexample`; no `plansAgreeB` check is needed.
+
+    Not covered (there the decidable check of `C18_generate_eq_plans` remains the link): parametric
+    dimension 1 (the faces are points; the model's `assignViews` does not hand views to points),
+    histories with twins tolerated at the top level, histories in which a patch is `≈` to an earlier
+    one (no new top node), and patches of lower parametric dimension than the model. -/
+theorem C18_plans_of_catalogue (nc : ℕ) (sm : SplineModel) (objs : List Obj)
+    (H : C18_History nc sm objs) (hP : 2 ≤ sm.pardim) :
+    PlansInv sm objs ∧ sm.plans = plansOfObjs objs ∧
     ∀ r, sm.generateCpNumbers = .ok r → numberPlans (plansOfObjs objs) = .ok (r.cp, r.ncps) := by
-  have hp := plans_eq_of_inv sm objs h
-  refine ⟨hp, fun r hr => ?_⟩
+  have hinv := plansInv_of_hist sm objs H hP
+  have hp := plans_eq_of_inv sm objs hinv
+  refine ⟨hinv, hp, fun r hr => ?_⟩
   unfold SplineModel.generateCpNumbers at hr
   have hp' : sm.tops.map (planOf sm (allViews sm)) = plansOfObjs objs := hp
   simp only [hp', bind, Except.bind, pure, Except.pure] at hr
@@ -315,6 +341,33 @@ theorem C18_plans_of_catalogue_partial (sm : SplineModel) (objs : List Obj) (h :
     simp only [Except.ok.injEq] at hr
     subst hr
     exact hv
+
+/-- **`generate_cp_numbers()` after `SplineModel(pardim, dimension).add(patches)`** — the closed form
+    of `C18_history_new` + `C18_history_add` + `C18_plans_of_catalogue` for one `add` call:
+    for `pardim ∈ {2, 3}`, well-formed patches of that parametric dimension, pairwise not `≈`, twins
+    rejected at the top level, the driver's function `sm.generateCpNumbers` is
+    `numberPlans (plansOfObjs patches)` — unconditionally, no run-time check. -/
+theorem C18_generate_eq_plans_of_add (nc P D : ℕ) (frh : Bool) (ktol : ℚ) (patches : List Obj)
+    (tw : List ℕ) (sm0 sm : SplineModel) (hP : 2 ≤ P)
+    (hnew : SplineModel.new P D frh = .ok sm0)
+    (hgu : ∀ p ∈ patches, GU nc p ∧ p.pardim = P)
+    (htw : tw.contains P = true)
+    (hdist : patches.Pairwise (fun a b => ¬ Equiv a b))
+    (hadd : sm0.add ktol patches tw = .ok sm) :
+    sm.plans = plansOfObjs patches ∧
+    ∀ r, sm.generateCpNumbers = .ok r → numberPlans (plansOfObjs patches) = .ok (r.cp, r.ncps) := by
+  have h0 := C18_history_new nc P D frh sm0 (by omega) hnew
+  have hp0 : sm0.pardim = P := by
+    unfold SplineModel.new at hnew
+    split at hnew
+    · simp at hnew
+    · simp only [Except.ok.injEq] at hnew
+      subst hnew; rfl
+  have h1 := C18_history_add nc ktol sm0 sm [] patches tw h0 (by omega)
+    (fun p hp => by rw [hp0]; exact hgu p hp) (by rw [hp0]; exact htw) (by simpa using hdist) hadd
+  have hp1 : sm.pardim = P := by rw [(SplineModel.add_ok hadd).1, hp0]
+  simp only [List.nil_append] at h1
+  exact (C18_plans_of_catalogue nc sm patches h1 (by omega)).2
 
 /-- **`cps()` indexes consistently**: if `cps()` succeeds, all numbers are non-negative and a number
     determines the control point (conclusions 1 and 3 of `C18_numbering_partial`), then the returned
